@@ -220,8 +220,11 @@ def cases(tier):
         for off in b["offsets"]:
             cs.append(Case(f"interp_{lay}_m{b['m']}_off{off}", "case_interpolate", {"layout": lay, "m": b["m"], "off": off, "free": b["free"]}, timeout_s=3000, max_paths=300000))
     cs.append(Case("mode_2ch_3batches", "case_mode", {"nch": 2, "n_batches": 3}))
+    cs.append(Case("mode_2ch_4batches", "case_mode", {"nch": 2, "n_batches": 4}))
+    cs.append(Case("mode_1ch_5batches", "case_mode", {"nch": 1, "n_batches": 5}))
     if tier == "thorough":
-        cs.append(Case("mode_2ch_5batches", "case_mode", {"nch": 2, "n_batches": 5}))
+        cs.append(Case("mode_2ch_7batches", "case_mode", {"nch": 2, "n_batches": 7}))
+        cs.append(Case("mode_3ch_10batches", "case_mode", {"nch": 3, "n_batches": 10}))
     return cs
 
 
